@@ -34,6 +34,21 @@ Qed.
 Lemma used_false u t : (0 <? count_of u t) = false -> ~ 1 <= count_of u t.
 Proof. intros H. apply N.ltb_ge in H. lia. Qed.
 
+(* an argument of a call: a plain value, or a closure of the world with the kind the parameter wants *)
+Definition adenotes (W : world) (K : kind) (F : list N) (E : env) (stL : state) (ex : expr) (av : sval) : Prop :=
+  match K with
+  | KP => denotes F E stL ex av
+  | KF _ _ => exists d, w_D W d /\ dkind d = K /\ av = SyltSem.SClos (fd_ci d) /\ ldenotes F E stL ex (VFun (fd_fid d))
+  end.
+
+Lemma adenotes_mono W K F F2 E stL E2 st2 ex av :
+  adenotes W K F E stL ex av -> fut F E stL E2 st2 -> incl F F2 -> adenotes W K F2 E2 st2 ex av.
+Proof.
+  destruct K; cbn [adenotes]; intros H Hf Hi.
+  - eapply denotes_mono; eassumption.
+  - destruct H as (d & A & B & C & D). exists d. split; [exact A | split; [exact B | split; [exact C | eapply ldenotes_mono; eassumption]]].
+Qed.
+
 Section Sim.
 Variable pv : N.
 Variable sv : N.
@@ -220,24 +235,9 @@ Proof.
   eapply ldenotes_local; [left; reflexivity | exact Hq | exact Hc].
 Qed.
 
-(* an argument of a call: a plain value, or a closure of the world with the kind the parameter wants *)
-Definition adenotes (K : kind) (F : list N) (E : env) (stL : state) (ex : expr) (av : sval) : Prop :=
-  match K with
-  | KP => denotes F E stL ex av
-  | KF _ _ => exists d, w_D W d /\ dkind d = K /\ av = SyltSem.SClos (fd_ci d) /\ ldenotes F E stL ex (VFun (fd_fid d))
-  end.
-
-Lemma adenotes_mono K F F2 E stL E2 st2 ex av :
-  adenotes K F E stL ex av -> fut F E stL E2 st2 -> incl F F2 -> adenotes K F2 E2 st2 ex av.
-Proof.
-  destruct K; cbn [adenotes]; intros H Hf Hi.
-  - eapply denotes_mono; eassumption.
-  - destruct H as (d & A & B & C & D). exists d. split; [exact A | split; [exact B | split; [exact C | eapply ldenotes_mono; eassumption]]].
-Qed.
-
 (* the arguments of a call, evaluated from left to right when the call is made *)
 Lemma adenotes_list F E : forall ks xs avs st,
-  Forall3 (fun K av x => adenotes K F E st x av) ks avs xs -> wfenv E st -> linv st ->
+  Forall3 (fun K av x => adenotes W K F E st x av) ks avs xs -> wfenv E st -> linv st ->
   exists lvs stb, EvalList E xs st (ROk lvs stb) /\ cells_ext st stb /\ Forall3 (arel W) ks avs lvs.
 Proof.
   induction ks as [|K ks IH]; intros xs avs st Hd Hwf Hli.
@@ -253,7 +253,7 @@ Proof.
     + inversion Hrest; subst. exists [lv], st1. split; [apply EvalList_one; exact Hm | split; [exact Hx1 | repeat constructor; exact Hv]].
     + assert (Hwf1 : wfenv E st1) by (eapply wfenv_ext; [exact Hwf | apply Hx1]).
       assert (Hli1 : linv st1) by (eapply cells_ext_linv; eassumption).
-      assert (Hrest1 : Forall3 (fun K0 av0 x0 => adenotes K0 F E st1 x0 av0) ks avs' (x2 :: xs)).
+      assert (Hrest1 : Forall3 (fun K0 av0 x0 => adenotes W K0 F E st1 x0 av0) ks avs' (x2 :: xs)).
       { clear Hd IH. induction Hrest as [|a b c0 la lb lc Hab _ IHr]; constructor; [|exact IHr].
         eapply adenotes_mono; [exact Hab | apply fut_cells_ext; assumption | apply incl_refl]. }
       destruct (IH (x2 :: xs) avs' st1 Hrest1 Hwf1 Hli1) as (lvs & stb & Hel & Hxb & Hvs).
@@ -261,18 +261,20 @@ Proof.
       split; [eapply (cells_ext_trans st st1 stb); eassumption | constructor; assumption].
 Qed.
 
-(* ICall v tf args: `local V<v> = <tf>(<args>)` for a closure of the world *)
+(* ICall v tf args: `local V<v> = <tf>(<args>)` for a closure of the world; the result has the kind the closure promises,
+   in a world that may know one more closure (the result) *)
 Lemma step_call_fun n ctx sc e st F c c' E stL l v tf (vs : list N) avs d r st' :
   P_apply pv sv bound u fl W n ->
   rel sc e st E stL -> ctx_ok l F E c c' -> c <= v < c' ->
   w_D W d ->
   ldenotes F E stL (aexpand l tf) (VFun (fd_fid d)) ->
-  Forall3 (fun K av t => adenotes K F E stL (aexpand l t) av) (fd_pk d) avs vs ->
+  Forall3 (fun K av t => adenotes W K F E stL (aexpand l t) av) (fd_pk d) avs vs ->
   SyltSem.apply n (SyltSem.SClos (fd_ci d)) avs st = (r, st') -> interesting r ->
   match r with
   | SyltSem.RVal rv =>
-      exists E' stL' F', okstep sc e st' F c c' E stL (fst (agen_one u l (ICall v tf vs))) E' stL' F' /\
-                         denotes F' E' stL' (aexpand l v) rv
+      exists W1 E' stL' F', wsub W W1 /\
+        SimExpr.okstep pv sv bound u fl W1 sc e st' F c c' E stL (fst (agen_one u l (ICall v tf vs))) E' stL' F' /\
+        adenotes W1 (fd_rk d) F' E' stL' (aexpand l v) rv
   | _ => exit_post pv sv bound u fl W ctx sc e c c' E stL (fst (agen_one u l (ICall v tf vs))) r st'
   end.
 Proof.
@@ -282,7 +284,7 @@ Proof.
   destruct (Hf E stL (fut_refl _ _ _) Hwf Hli) as (st1 & Hef & _ & Hx1).
   assert (Hwf1 : wfenv E st1) by (eapply wfenv_ext; [exact Hwf | apply Hx1]).
   assert (Hli1 : linv st1) by (eapply cells_ext_linv; eassumption).
-  assert (Hargs1 : Forall3 (fun K av x => adenotes K F E st1 x av) (fd_pk d) avs (map (aexpand l) vs)).
+  assert (Hargs1 : Forall3 (fun K av x => adenotes W K F E st1 x av) (fd_pk d) avs (map (aexpand l) vs)).
   { clear Hap. induction Hargs as [|K av t ks' avs' vs' Hd1 _ IH]; cbn [map]; constructor; [|exact IH].
     eapply adenotes_mono; [exact Hd1 | apply fut_cells_ext; assumption | apply incl_refl]. }
   destruct (adenotes_list F E _ _ _ st1 Hargs1 Hwf1 Hli1) as (lvs & stb & Hel & Hxb & Hvs).
@@ -290,13 +292,14 @@ Proof.
   assert (Hrelb : rel sc e st E stb) by (eapply rel_cells_ext; eassumption).
   pose proof (IHa d avs lvs sc e st E stb r st' Hrelb Hd Hvs Hap Hint) as Hres.
   destruct r as [rv|o|cc]; [| |destruct Hres].
-  - destruct Hres as (rvs & stLr & Hcall & Hvr & Hrelr & Hnc & Hfr).
+  - destruct Hres as (W1 & rvs & stLr & Hw1 & Hcall & Hvr & Hrelr & Hnc & Hfr).
     assert (Hec : EvalCall E (aexpand l tf) (map (aexpand l) vs) stL (ROk rvs stLr))
       by (eapply EvalCall_intro; [exact Hef | exact Hel | exact Hcall]).
     pose proof (Exec_local E [fmt_var v] [ECall (aexpand l tf) (map (aexpand l) vs)] stL rvs stLr
                   (EvalList_one _ _ _ _ (EvalMulti_call _ _ _ _ _ Hec))) as Hex.
     rewrite bind_locals_one in Hex. cbn [fst snd] in Hex.
-    exists (sset (fmt_var v) (s_ncell stLr) E), (snd (alloc_cell stLr (first rvs))), (v :: F). split.
+    exists W1, (sset (fmt_var v) (s_ncell stLr) E), (snd (alloc_cell stLr (first rvs))), (v :: F).
+    split; [exact Hw1|]. split.
     + split; [apply ExecS_one; exact Hex|]. split; [|split; [|split]].
       * assert (Hncb : (s_ncell stL <= s_ncell stb)%positive) by (destruct Hx1b as (_ & _ & _ & _ & _ & _ & H & _); exact H).
         constructor.
@@ -311,13 +314,34 @@ Proof.
       * split; [apply incl_tl, incl_refl|]. intros t' [<-|Ht']; [right; exact Hv | left; exact Ht'].
       * eapply keep_temp; [exact Hrel | lia].
     + unfold aexpand. rewrite (Hl v) by (left; exact Hv).
-      eapply denotes_local; [left; reflexivity | apply sget_sset_same | rewrite get_cell_alloc_new; exact Hvr].
+      destruct (fd_rk d) as [|ka kr]; cbn [adenotes arel] in *.
+      * eapply denotes_local; [left; reflexivity | apply sget_sset_same | rewrite get_cell_alloc_new; exact Hvr].
+      * destruct Hvr as (d' & A & B & C & D). exists d'. split; [exact A | split; [exact B | split; [exact C|]]].
+        eapply ldenotes_local; [left; reflexivity | apply sget_sset_same | rewrite get_cell_alloc_new; exact D].
   - destruct Hres as (ev & stLr & Hcall & Htr).
     exists (RErr ev stLr). split.
     + apply XS_stop; [|intros []]. apply Exec_local_err. apply EvalList_one. apply EvalMulti_call.
       eapply EvalCall_intro; [exact Hef | exact Hel | exact Hcall].
     + cbn [exit_ok]. exists ev, stLr. split; [reflexivity | exact Htr].
 Qed.
+
+(* function-valued expressions: the name of a function, a lambda, a call that returns a function.  The closure it
+   evaluates to is a closure of a world that may have grown (a new closure); the steps are seen from the world at the
+   start, the relation at the end also holds in the larger one *)
+Definition P_farg (n : nat) : Prop :=
+  forall g k x K ctx c code v c' e st r st' sc l E stL F,
+    SyltSem.eval n e x st = (r, st') ->
+    expression g x ctx c = Ok ((code, v), c') ->
+    frag_fexpr pv sv bound fl k sc x = Some K ->
+    ucovers u code -> 1 <= count_of u v -> ctx_ok l F E c c' ->
+    rel sc e st E stL -> interesting r ->
+    exists b l', cshape u l code b l' c c' /\ c <= v /\ v < c' /\
+      match r with
+      | SyltSem.RVal y =>
+          exists W1 E' stL' F', wsub W W1 /\ okstep sc e st' F c c' E stL b E' stL' F' /\
+                                 SimDefs.rel pv sv bound u fl W1 sc e st' E' stL' /\ adenotes W1 K F' E' stL' (aexpand l' v) y
+      | _ => exit_post pv sv bound u fl W ctx sc e c c' E stL b r st'
+      end.
 
 (* IAssert c: assert(xc, "Assert failed!") *)
 Lemma step_assert sc e st F E stL l t (b : bool) :
